@@ -177,45 +177,134 @@ def labels_for(col, draw):
 
 
 @st.composite
-def index_table(draw, spec_index, n):
+def index_table(draw, spec_index, n, conform=False):
     if spec_index is None:
-        if draw(st.integers(0, 4)) > 0:
+        if conform or draw(st.integers(0, 4)) > 0:
             return None
         comps = [{"dtype": "int64", "name": None}]
     else:
         comps = spec_index if isinstance(spec_index, list) else [spec_index]
-        if draw(st.integers(0, 7)) == 0:
+        if not conform and draw(st.integers(0, 7)) == 0:
             return None  # RangeIndex against an index schema (name / level-count mismatch)
     names, levels = [], []
     for c in comps:
-        names.append(c["name"] if draw(st.integers(0, 9)) else "other")
-        as_str = (c["dtype"] == "str") != (draw(st.integers(0, 7)) == 0)
-        e = st.sampled_from(["a", "b", "c", "d"]) if as_str else st.integers(0, 3)
-        levels.append(draw(st.lists(e, min_size=n, max_size=n)))
+        names.append(c["name"] if (conform or draw(st.integers(0, 9))) else "other")
+        as_str = (c["dtype"] == "str") != ((not conform) and draw(st.integers(0, 7)) == 0)
+        pool = ["a", "b", "c", "d"] if as_str else [0, 1, 2, 3]
+        if conform:
+            ok = [v for v in pool if all(cell_ok(k, v) for k in c.get("checks", []))]
+            pool = ok or pool
+        uniq = conform and (c.get("unique") or any(k["kind"] == "no_dups" for k in c.get("checks", []))) and len(pool) >= n
+        levels.append(draw(st.lists(st.sampled_from(pool), min_size=n, max_size=n, unique=bool(uniq))))
     return {"names": names, "levels": levels}
+
+
+def _pool(phys):
+    return {
+        "int64": list(range(-3, 7)), "timedelta": list(range(-3, 7)),
+        "float64": [-1.5, 0.0, 0.5, 1.0, 2.5, 3.0, None], "object": STRS + [None], "bool": [True, False],
+        "Int64": [-2, 0, 1, 2, 5, None], "category": ["a", "b", "ab"], "dt_mixed": list(DATES),
+    }.get(phys, DATES + [None])
+
+
+def cell_ok(cs, v):
+    """does a cell satisfy a built-in CheckSpec (None = null cell: passes unless ignore_na is False)"""
+    import re as _re
+
+    k, a = cs["kind"], cs.get("args", [])
+    if v is None:
+        return cs.get("ignore_na", True) is not False
+    try:
+        if isinstance(a and a[0], dict):
+            a = [x["ts"] for x in a]
+        if k == "gt":
+            return v > a[0]
+        if k == "ge":
+            return v >= a[0]
+        if k == "lt":
+            return v < a[0]
+        if k == "le":
+            return v <= a[0]
+        if k == "eq":
+            return v == a[0]
+        if k == "ne":
+            return v != a[0]
+        if k == "in_range":
+            return a[0] <= v <= a[1]
+        if k == "isin":
+            return v in a[0]
+        if k == "notin":
+            return v not in a[0]
+        if k == "str_matches":
+            return _re.match(a[0], v) is not None
+        if k == "str_contains":
+            return _re.search(a[0], v) is not None
+        if k == "str_startswith":
+            return v.startswith(a[0])
+        if k == "str_endswith":
+            return v.endswith(a[0])
+        if k == "str_length":
+            return a[0] <= len(v) <= a[1]
+    except TypeError:
+        return True
+    return True
+
+
+def _row_bounds(spec):
+    lo, hi = 0, 4
+    allchecks = list(spec.get("checks", []))
+    for c in spec["columns"]:
+        allchecks += c.get("checks", [])
+    ix = spec.get("index")
+    for i in (ix if isinstance(ix, list) else [ix] if ix else []):
+        allchecks += i.get("checks", [])
+    for cs in allchecks:
+        if cs["kind"] == "len_le_3":
+            hi = min(hi, 3)
+        elif cs["kind"] == "len_le_1":
+            hi = min(hi, 1)
+        elif cs["kind"] in ("registered", "kw_min_rows"):
+            lo = max(lo, cs["args"][0])
+    return (lo, hi) if lo <= hi else (0, 4)
+
+
+@st.composite
+def conforming_cells(draw, col, phys, n, frame_checks=()):
+    checks = list(col.get("checks", [])) + [c for c in frame_checks if c["kind"] in ("ge", "le", "ne")]
+    pool = [v for v in _pool(phys) if (v is not None or col.get("nullable")) and all(cell_ok(c, v) for c in checks)]
+    if not pool:
+        pool = [v for v in _pool(phys) if v is not None]
+    uniq = col.get("unique") or any(c["kind"] == "no_dups" for c in checks)
+    return draw(st.lists(st.sampled_from(pool), min_size=n, max_size=n, unique=bool(uniq) and len(pool) >= n))
 
 
 @st.composite
 def probe_for(draw, spec):
-    n = draw(st.integers(0, 4))
+    conform_all = draw(st.integers(0, 1)) == 1  # every column built to conform (verdict is still pandera's)
+    lo, hi = _row_bounds(spec) if conform_all else (0, 4)
+    n = draw(st.integers(lo, hi))
     cols = []
     for c in spec["columns"]:
-        if spec["kind"] != "series" and draw(st.integers(0, 11)) == 0:
+        if not conform_all and spec["kind"] != "series" and draw(st.integers(0, 11)) == 0:
             continue  # column missing
         for lab in labels_for(c, draw):
-            conform = draw(st.integers(0, 3)) > 0
+            conform = conform_all or draw(st.integers(0, 3)) > 0
             phys = draw(st.sampled_from(CONFORMING[c["dtype"]] if conform else ALL_PHYS))
-            cols.append({"name": lab, "phys": phys, "cells": draw(cells_for(phys, n))})
+            if spec.get("dtype") in ("int64", "float64") and conform_all:
+                phys = spec["dtype"]
+            if conform:
+                cells = draw(conforming_cells(c, phys, n, spec.get("checks", [])))
+            else:
+                cells = draw(cells_for(phys, n))
+            cols.append({"name": lab, "phys": phys, "cells": cells})
     if spec["kind"] != "series":
-        if draw(st.integers(0, 6)) == 0:
+        if draw(st.integers(0, 6 if not conform_all else 20)) == 0:
             cols.append({"name": "extra", "phys": "int64", "cells": draw(cells_for("int64", n))})
-        if len(cols) > 1 and draw(st.integers(0, 7)) == 0:
+        if len(cols) > 1 and not conform_all and draw(st.integers(0, 7)) == 0:
             cols = cols[::-1]
-    elif not cols:
-        raise AssertionError("series probe without column")
     if spec["kind"] == "series":
-        cols[0]["name"] = spec["columns"][0]["name"] if draw(st.integers(0, 7)) else "other"
-    return {"n": n, "columns": cols, "index": draw(index_table(spec.get("index"), n))}
+        cols[0]["name"] = spec["columns"][0]["name"] if (conform_all or draw(st.integers(0, 7))) else "other"
+    return {"n": n, "columns": cols, "index": draw(index_table(spec.get("index"), n, conform_all))}
 
 
 # ---------------------------------------------------------------------------- ops
@@ -273,6 +362,8 @@ def op_for(draw, spec, nprobes):
                 "set_index", "reset_index", "component_update_checks", "update_checks"):
         # the returned schema is used (validated) and dropped; the receiver must not notice
         op["then_validate"] = draw(st.integers(0, nprobes - 1))
+    if name == "copy":
+        op["edit"] = draw(st.sampled_from([None, "name", "coerce"]))
     if name == "model_edit_returned":
         op["attr"] = draw(st.sampled_from(["strict", "coerce"]))
     return op
